@@ -623,7 +623,7 @@ func c07Judge(c *C, set *pongo2.TemplateSet, ctx pongo2.Context, n *xnode, layou
 			tpl.Execute(c07Swapped)
 			first, ferr := tpl.Execute(ctx)
 			before := atomic.LoadInt64(&c07Calls)
-			out, xerr := tpl.Execute(ctx)
+			out, xerr := execSpread(tpl, ctx, hashStr(src))
 			ncalls := int(atomic.LoadInt64(&c07Calls) - before)
 			if first != out || (ferr == nil) != (xerr == nil) {
 				c.Fail("second-evaluation-differs", D{"tree": c07Full(n), "source": src, "first_output": first, "second_output": out, "first_error": errStr(ferr), "second_error": errStr(xerr)})
